@@ -64,8 +64,20 @@ def eval_valid(case):
             with np.errstate(all="ignore"):
                 k_rev = relative_permeabilities(sat[::-1].copy().view(np.recarray), prm)
                 k_sub = relative_permeabilities(sat[len(sat) // 3: len(sat) // 3 + 7].copy(), prm)
+            # ... and the same records with one more record in the call whose sum is off by 8e-4 (inside what the
+            # library accepts as "summing to one"; if it is rejected there is nothing to compare)
+            k_mix = None
+            try:
+                with np.errstate(all="ignore"):
+                    k_mix = relative_permeabilities(np.concatenate([sat, sat_records([(0.5004 * 1.0, 0.3002, 0.2002)])]), prm)
+            except Exception:  # noqa: BLE001
+                pass
             for name in ("kro", "krw", "krg"):
                 a0 = np.asarray(k[name], dtype=float)
+                if k_mix is not None and not np.array_equal(np.asarray(k_mix[name], dtype=float)[:-1], a0, equal_nan=True):
+                    viol.append(V(f"elementwise/{name}", f"{name} of records that sum to one changes when a record summing to 1.0008 "
+                                  "is part of the same call", case=c))
+                    break
                 if not (np.array_equal(np.asarray(k_rev[name], dtype=float)[::-1], a0, equal_nan=True)
                         and np.array_equal(np.asarray(k_sub[name], dtype=float), a0[len(sat) // 3: len(sat) // 3 + 7], equal_nan=True)):
                     viol.append(V(f"elementwise/{name}", f"{name} of a saturation record depends on which other records are in the "
